@@ -16,10 +16,19 @@ Task.clone, Task.__init__, Task._attach):
   wbs-attrs   public attributes of the source WBS are copied (same loop shape) on the path shared by clone() and subtree()
   once        one clone() per selected id, one __clone_tasks / WBS() / __clone per copy, one Task(...) per Task.clone
 
+Accepted idioms (all exercised by scratch refactorings, see rules/README.md): renamed / hoisted locals, one-line helpers
+(inlined by the Expander), `if c: continue`, swapped operands, `is not self`, merged external scan over
+`predecessors + successors`, `.items()` loops, the clone map or the selection filled by a statement loop instead of a
+comprehension, the selection / the external registration / the attribute copy extracted into one private helper, a
+generator helper yielding the public attribute names, `if parent: c.parent = .. else: c.parent = None`, logging, and
+Task.clone written as `copy.copy(self)` followed by a reset of EVERY relation/owner field (a missing reset is REFUTED:
+the shallow copy shares that list with the source).
+
 Not decided: id collisions between an outside task and a member (the map is keyed by id); mutable attribute values
 shared by reference; overlapping root selections in subtree(); the numeric/behavioural outcome of the setters (C01,
 C11); a private field of Task that is not fed by a constructor parameter (reported as UNDECIDED, never passed); the
-hierarchy rebuilt through only one of parent/children (UNDECIDED).
+hierarchy rebuilt through only one of parent/children (UNDECIDED); copy.deepcopy / __new__ based clones (UNDECIDED).
+The analysis itself lives in rules/clone_common.py (shared with C02 and C06, which call clone_provenance / c10._fields).
 """
 from __future__ import annotations
 
